@@ -232,8 +232,9 @@ fn_src = z3.RecFunction("fn_src", SList, _S, I, SList)
 _fl, _fk, _fi = z3.Const("fn_l", SList), z3.Const("fn_k", _S), z3.Int("fn_i")
 _item = _snth(_fl, _fi - 1)
 _head_is = _sfirst1(SExp.items(_item)) == SExp.Atom(_fk)
-z3.RecAddDefinition(fn_has, [_fl, _fk, _fi], z3.If(_fi <= 0, False, z3.Or(_head_is, fn_has(_fl, _fk, _fi - 1))))
-z3.RecAddDefinition(fn_src, [_fl, _fk, _fi], z3.If(_fi <= 0, SList.Nil, z3.If(_head_is, _srest1(SExp.items(_item)), fn_src(_fl, _fk, _fi - 1))))
+from pyvc.sorts import rec_define
+rec_define(fn_has, [_fl, _fk, _fi], z3.If(_fi <= 0, False, z3.Or(_head_is, fn_has(_fl, _fk, _fi - 1))))
+rec_define(fn_src, [_fl, _fk, _fi], z3.If(_fi <= 0, SList.Nil, z3.If(_head_is, _srest1(SExp.items(_item)), fn_src(_fl, _fk, _fi - 1))))
 _sig_src = z3.Function("sig_src", I, SList)
 FN_HOOKS = {
     "fn_has": lambda interp, st, a: Val(fn_has(a[0].t, a[1].t, a[2].t), "bool"),
@@ -281,9 +282,9 @@ _pitem = _snth(_fl, _fi - 1)
 _phead = _sfirst1(SExp.items(_pitem))
 _psub = _srest1(SExp.items(_pitem))
 _is_priv = _phead == SExp.Atom(z3.StringVal(":private"))
-z3.RecAddDefinition(pr_has, [_fl, _fk, _fi], z3.If(_fi <= 0, False,
+rec_define(pr_has, [_fl, _fk, _fi], z3.If(_fi <= 0, False,
                     z3.If(_is_priv, z3.Or(pr_has(_fl, _fk, _fi - 1), fn_has(_psub, _fk, _slen(_psub))), z3.Or(pr_has(_fl, _fk, _fi - 1), _phead == SExp.Atom(_fk)))))
-z3.RecAddDefinition(pr_src, [_fl, _fk, _fi], z3.If(_fi <= 0, SList.Nil,
+rec_define(pr_src, [_fl, _fk, _fi], z3.If(_fi <= 0, SList.Nil,
                     z3.If(_is_priv, z3.If(fn_has(_psub, _fk, _slen(_psub)), fn_src(_psub, _fk, _slen(_psub)), pr_src(_fl, _fk, _fi - 1)),
                           z3.If(_phead == SExp.Atom(_fk), _psub, pr_src(_fl, _fk, _fi - 1)))))
 PR_HOOKS = dict(FN_HOOKS,
@@ -341,9 +342,9 @@ sg_keys = z3.RecFunction("sg_keys", _SQS, I, _SQS)
 sg_pend = z3.RecFunction("sg_pend", _SQS, I, _SQS)
 _st, _si = z3.Const("sg_t", _SQS), z3.Int("sg_i")
 _DASHS = z3.StringVal("-")
-z3.RecAddDefinition(sg_pend, [_st, _si], z3.If(_si <= 0, z3.Empty(_SQS), z3.If(tl_mark(_st, _si - 1), z3.Empty(_SQS),
+rec_define(sg_pend, [_st, _si], z3.If(_si <= 0, z3.Empty(_SQS), z3.If(tl_mark(_st, _si - 1), z3.Empty(_SQS),
                     z3.If(_st[_si - 1] == _DASHS, sg_pend(_st, _si - 1), z3.Concat(sg_pend(_st, _si - 1), z3.Unit(_st[_si - 1]))))))
-z3.RecAddDefinition(sg_keys, [_st, _si], z3.If(_si <= 0, z3.Empty(_SQS), z3.If(tl_mark(_st, _si - 1), z3.Concat(sg_keys(_st, _si - 1), sg_pend(_st, _si - 1)),
+rec_define(sg_keys, [_st, _si], z3.If(_si <= 0, z3.Empty(_SQS), z3.If(tl_mark(_st, _si - 1), z3.Concat(sg_keys(_st, _si - 1), sg_pend(_st, _si - 1)),
                                                                               sg_keys(_st, _si - 1))))
 SG_HOOKS = dict(_TL_HOOKS,
                 sg_keys=lambda interp, st, a: Val(sg_keys(a[0].t, a[1].t), ("seq", "str")),
@@ -416,4 +417,47 @@ CONTRACTS_NOT_DISCHARGED["lisp_parsers.parsing_utils:parse_signature@proved"] = 
             modifies=["dict_str_ref.keys[signature]", "dict_str_ref.map[signature]"]),
         1: _inner("domain_types[parameter_type]"),
         2: _inner("ObjectType")},
+    spec_hooks=SG_HOOKS)
+
+
+# ---- deductive: parse_signature — which parameters, with which types (the ORDER of the parameters is not part of this contract) ---------
+def _inner_m(value):
+    inpre = "exists_int(lambda a_: grouped_params[a_] == s, 0, _i)"
+    return dict(invariants=[
+        "fresh(signature)",
+        f"forall_str(lambda s: (s in signature) == (at_loop_entry(s in signature) or {inpre}))",
+        f"forall_str(lambda s: implies({inpre}, signature[s] is {value}))",
+        f"forall_str(lambda s: implies(at_loop_entry(s in signature) and not {inpre}, signature[s] is at_loop_entry(signature[s])))"],
+        membership_lemma=True, modifies=["dict_str_ref.keys[signature]", "dict_str_ref.map[signature]"])
+
+
+# NOT DISCHARGED either (4 of 67 obligations stay `unknown`: the step over a dash, where membership of the waiting names given as a
+# sequence has to be matched with the position-wise invariants of the inner loop); kept for the record, not registered.
+CONTRACTS_NOT_DISCHARGED["lisp_parsers.parsing_utils:parse_signature@members"] = dict(
+    prop="C01", shards=4,
+    params={"parameters": ("iter", "str"), "domain_types": ("ref", "dict_PDDLType")},
+    locals={"signature": ("ref", "dict_str_ref"), "grouped_params": ("seq", "str")},
+    returns=("ref", "dict_str_ref"), dict_values={"dict_str_ref": "PDDLType"}, dict_membership_only=True,
+    globals={"ObjectType": ("ref", "PDDLType", "G_ObjectType")},
+    requires=["iter_pos(parameters) == 0", "allocated(domain_types)"],
+    ensures=[
+        "fresh(result)",
+        # exactly the written parameter names ...
+        f"forall_str(lambda s: (s in result) == (tl_has({_T}, s, {_NT}) or tl_pend({_T}, s, {_NT})))",
+        # ... each with the type object registered under its declared type name; parameters listed without a type get the default object type
+        f"forall_str(lambda s: implies(tl_has({_T}, s, {_NT}) and not tl_pend({_T}, s, {_NT}), result[s] is domain_types[tl_type({_T}, s, {_NT})]))",
+        f"forall_str(lambda s: implies(tl_pend({_T}, s, {_NT}), result[s] is ObjectType))"],
+    raises={"SyntaxError": _BADNAME, "StopIteration": f"tl_mark({_T}, {_NT})", "KeyError": "True"},
+    must_raise=[_BADNAME],
+    modifies=[],
+    loops={
+        0: dict(invariants=[
+            "fresh(signature)", f"not tl_mark({_T}, _i)",
+            f"forall_str(lambda s: (s in signature) == tl_has({_T}, s, _i))", f"forall_str(lambda s: (s in grouped_params) == tl_pend({_T}, s, _i))",
+            f"forall_str(lambda s: implies(s in signature, signature[s] is domain_types[tl_type({_T}, s, _i)]))",
+            f"forall_int(lambda j: implies(not tl_mark({_T}, j) and {_T}[j] != '-', qmark({_T}[j])), 0, _i)",
+            "forall_str(lambda s: implies(s in grouped_params, qmark(s)))"],
+            modifies=["dict_str_ref.keys[signature]", "dict_str_ref.map[signature]"]),
+        1: _inner_m("domain_types[parameter_type]"),
+        2: _inner_m("ObjectType")},
     spec_hooks=SG_HOOKS)
